@@ -343,6 +343,27 @@ func c07(c *Ctx) {
 
 	c.txTypestate("R07.4")
 
+	// ---- R07.9 -----------------------------------------------------------------------
+	R.Explain("R07.9", "the statements that erase left-overs work for every batch size: T-SQL (engine of C08: valid against the schema, placeholder count = bound arguments on both sides of the chunk limit, batches bounded by xslices.Chunk) restricted to the statements reachable from the start-up clean-up and from the removal of messages marked for deletion (newUser, user.deleteAllMessagesMarkedDeleted, user.removeState, user.cleanupStaleStoreData).  A delete statement prepared once for a full chunk and then run with the shorter last chunk fails; its transaction is rolled back, and the marked messages and their files stay behind on every later start.")
+	{
+		var rf []*ssa.Function
+		for _, r := range []string{"internal/backend.newUser", "internal/backend.(*user).deleteAllMessagesMarkedDeleted", "internal/backend.(*user).removeState", "internal/backend.(*user).cleanupStaleStoreData"} {
+			if f := c.fn("R07.9", r); f != nil {
+				rf = append(rf, f)
+			}
+		}
+		reach := P.Reachable(rf, engine.ReachOpts{FollowClosures: true, OwnOnly: true})
+		res := c.sqlAnalysis()
+		n := c.emitSQL(res, "", map[string]string{"R08.1": "R07.9", "R08.2": "R07.9", "R08.3": "R07.9", "R08.4": "R07.9"}, func(o sqlOb) bool {
+			if o.fn == nil {
+				return false
+			}
+			_, ok := reach[o.fn]
+			return ok
+		})
+		R.Min("R07.9", "statement obligations reachable from the clean-up paths", n, 10)
+	}
+
 	k := c.errorsPropagated("R07.5", []string{"internal/state", "internal/backend"}, func(cs engine.CallSite) (string, bool) {
 		if isStoreCall(cs, "Set", "SetUnchecked") {
 			return "store.Set", true
